@@ -135,6 +135,8 @@ var boolOpts = []string{
 	"get_enum_annotation", "apache_warning",
 }
 
+var maskingOpts = map[string]bool{"no_default_serdes": true, "no_processor": true, "skip_empty": true, "no_fmt": true, "trim_idl": true}
+
 func genOptions(rt *rapid.T) []string {
 	var opts []string
 	pick := func() string {
@@ -148,10 +150,23 @@ func genOptions(rt *rapid.T) []string {
 			return o + "=false"
 		}
 	}
-	switch rapid.IntRange(0, 5).Draw(rt, "optmode") {
+	switch rapid.IntRange(0, 6).Draw(rt, "optmode") {
 	case 0:
 	case 1, 2:
 		opts = append(opts, pick())
+	case 6:
+		// dense: every option on with probability 1/3, so that any two of them meet
+		// within a few dozen cases (options that switch whole parts of the output
+		// off are kept rare: they would hide what the others do)
+		for _, o := range boolOpts {
+			den := 3
+			if maskingOpts[o] {
+				den = 12
+			}
+			if rapid.IntRange(1, den).Draw(rt, "on:"+o) == 1 {
+				opts = append(opts, o)
+			}
+		}
 	default:
 		n := rapid.IntRange(2, 8).Draw(rt, "nopts")
 		for i := 0; i < n; i++ {
@@ -235,6 +250,7 @@ func TestCompiles(t *testing.T) {
 		vt.Class("status:" + st)
 		vt.Class("backend:" + c.Backend)
 		vt.ClassIf(len(c.Options) > 0, "non_default_options")
+		vt.ClassIf(len(c.Options) >= 9, "options>=9(dense)")
 		vt.ClassIf(crossFile(p), "cross_file")
 		vt.ClassIf(!c.Recurse, "without_-r")
 		if st == stOK && (crossFile(p) || len(c.Options) > 0) {
